@@ -508,13 +508,13 @@ V("C01", "save_xtc-units-swapped", T, """                xyz=in_units_of(self.xy
 V("C01", "dcd-reader-box-unconverted", "mdtraj/formats/dcd/dcd.pyx", "        in_units_of(box_length, self.distance_unit, Trajectory._distance_unit, inplace=True)\n", "", "C01-R2", "DCDTrajectoryFile.read_as_traj")
 V("C01", "xyz-reader-conversion-not-inplace", "mdtraj/formats/xyzfile.py", "        in_units_of(xyz, self.distance_unit, Trajectory._distance_unit, inplace=True)",
   "        in_units_of(xyz, self.distance_unit, Trajectory._distance_unit)", "C01-R2", "XYZTrajectoryFile.read_as_traj")
-V("C01", "cryst1-angle-decimals", "mdtraj/formats/pdb/pdbfile.py", '"CRYST1{:9.3f}{:9.3f}{:9.3f}{:7.2f}{:7.2f}{:7.2f} P 1           1 "', '"CRYST1{:9.3f}{:9.3f}{:9.3f}{:7.3f}{:7.2f}{:7.2f} P 1           1 "', "C01-R4")
-V("C01", "cryst1-length-width", "mdtraj/formats/pdb/pdbfile.py", '"CRYST1{:9.3f}{:9.3f}{:9.3f}{:7.2f}{:7.2f}{:7.2f} P 1           1 "', '"CRYST1{:10.3f}{:9.3f}{:9.3f}{:7.2f}{:7.2f}{:7.2f} P 1           1 "', "C01-R4")
-V("C01", "pdb-reader-x-slice-shifted", "mdtraj/formats/pdb/pdbstructure.py", "        x = float(pdb_line[30:38])", "        x = float(pdb_line[31:39])", "C01-R4", "Atom.__init__")
+V("C01", "cryst1-angle-decimals", "mdtraj/formats/pdb/pdbfile.py", '"CRYST1{:9.3f}{:9.3f}{:9.3f}{:7.2f}{:7.2f}{:7.2f} P 1           1 "', '"CRYST1{:9.3f}{:9.3f}{:9.3f}{:7.3f}{:7.2f}{:7.2f} P 1           1 "', "C01-R8")
+V("C01", "cryst1-length-width", "mdtraj/formats/pdb/pdbfile.py", '"CRYST1{:9.3f}{:9.3f}{:9.3f}{:7.2f}{:7.2f}{:7.2f} P 1           1 "', '"CRYST1{:10.3f}{:9.3f}{:9.3f}{:7.2f}{:7.2f}{:7.2f} P 1           1 "', "C01-R8")
+V("C01", "pdb-reader-x-slice-shifted", "mdtraj/formats/pdb/pdbstructure.py", "        x = float(pdb_line[30:38])", "        x = float(pdb_line[31:39])", "C01-R8")
 V("C01", "pdb-atom-line-bfactor-width", "mdtraj/formats/pdb/pdbfile.py", '"ATOM  %5d %-4s %3s %1s%4d    %s%s%s  1.00 %5s      %-4s%2s  "', '"ATOM  %5d %-4s %3s %1s%4d    %s%s%s  1.00%6s      %-4s%2s  "', None)
-V("C01", "pdb-atom-line-resseq-shift", "mdtraj/formats/pdb/pdbfile.py", '"ATOM  %5d %-4s %3s %1s%4d    %s%s%s  1.00 %5s      %-4s%2s  "', '"ATOM  %5d %-4s %3s %1s %4d   %s%s%s  1.00 %5s      %-4s%2s  "', "C01-R4")
+V("C01", "pdb-atom-line-resseq-shift", "mdtraj/formats/pdb/pdbfile.py", '"ATOM  %5d %-4s %3s %1s%4d    %s%s%s  1.00 %5s      %-4s%2s  "', '"ATOM  %5d %-4s %3s %1s %4d   %s%s%s  1.00 %5s      %-4s%2s  "', "C01-R8")
 V("C01", "mdcrd-writer-9.3", "mdtraj/formats/mdcrd.py", '                out = "%8.3f" % coord', '                out = "%9.3f" % coord', "C01-R4", "MDCRDTrajectoryFile.write")
-V("C01", "rst7-reader-second-atom-offset", "mdtraj/formats/amberrst.py", "for j in range(36, 72, 12)]", "for j in range(37, 73, 12)]", "C01-R4", "AmberRestartFile._parse")
+V("C01", "rst7-reader-second-atom-offset", "mdtraj/formats/amberrst.py", "for j in range(36, 72, 12)]", "for j in range(37, 73, 12)]", "C01-R8")
 V("C01", "gro-box-writer-swaps-offdiag", "mdtraj/formats/gro.py", 'f"{box[0, 1]:10.5f}{box[0, 2]:10.5f}{box[1, 0]:10.5f}"', 'f"{box[1, 0]:10.5f}{box[0, 2]:10.5f}{box[0, 1]:10.5f}"', "C01-R8")
 V("C01", "gro-box-reader-transposed", "mdtraj/formats/gro.py", "                [box[0], box[3], box[4]],\n                [box[5], box[1], box[6]],", "                [box[0], box[5], box[4]],\n                [box[3], box[1], box[6]],", "C01-R8")
 V("C01", "dcd-write-alpha-gamma-swapped", "mdtraj/formats/dcd/dcd.pyx", "                self.timestep.alpha = cell_angles[i, 0]\n                self.timestep.beta  = cell_angles[i, 1]\n                self.timestep.gamma = cell_angles[i, 2]",
